@@ -62,6 +62,52 @@ def undelivered_phase(ctx, cr, fails, dist):
                           "kind": "undelivered-" + kind})
 
 
+def partial_reply_phase(ctx, cr, fails, dist):
+    """a SUCCESS reply too large for the socket buffer, of which the client takes the first bytes and then goes away: that reply
+    was not delivered either - the credential must stay decodable (exactly one first-attempt request SUCCEEDS)"""
+    import socket as _s
+    for size, take in ((700000, 11), (400000, 1), (300000, 70000)):
+        cr.set_clock(1500000000)
+        r, _ = rig.encode(cr.d.sock, uid=11, gid=12, cipher=4, mac=5, zip_=0, data=bytes(range(256)) * (size // 256))
+        if r is None or r["error_num"] != 0:
+            continue
+        cred = r["data"]
+        body = rig.dec_req_body(cred)
+        try:
+            c = rig.connect_as(cr.d.sock, 5, 1)
+            c.setsockopt(_s.SOL_SOCKET, _s.SO_RCVBUF, 4096)
+            c.sendall(rig.hdr(rig.T_DEC_REQ, 0, len(body)) + body)
+            got = b""
+            c.settimeout(10)
+            while len(got) < take:
+                x = c.recv(take - len(got))
+                if not x:
+                    break
+                got += x
+            time.sleep(0.05)
+            c.close()
+        except OSError:
+            got = b""
+        # the daemon finishes that request (its write fails or ends short), then serves the next one
+        res = []
+        for _ in range(3):
+            d, st = rig.decode(cr.d.sock, cred, uid=6, gid=1)
+            res.append(d and d["error_num"])
+            if d is not None:
+                break
+            time.sleep(0.3)
+        d2, st = rig.decode(cr.d.sock, cred, uid=7, gid=1)
+        ctx.count(("partial-reply", size, take))
+        dist["partial-reply"] = dist.get("partial-reply", 0) + 1
+        if res[-1] != 0:
+            fails.append({"why": "the reply to a successful decode (%d-byte payload) was only partly written - the client took %d byte(s) and hung up - "
+                                 "and the client never came back: no request has SUCCEEDED for this credential, yet the next first-attempt decode "
+                                 "is answered %s (expected 0, then 17)" % (size, len(got), res[-1]), "kind": "partial-reply", "payload_bytes": size})
+        elif d2 is None or d2["error_num"] != 17:
+            fails.append({"why": "after a partly delivered reply and one delivered success the next decode gives %s, expected 17"
+                                 % (d2 and d2["error_num"]), "kind": "partial-reply"})
+
+
 def purge_phase(ctx, orc, fails, dist):
     """'at most once' across the life of the replay record: credentials whose TTL exceeds the decoding daemon's --max-ttl
     (minted by a peer holding the same key: the reference), decodes at chosen clock readings, and the periodic purge firing
@@ -283,6 +329,36 @@ def live_phase(ctx):
                     fails.append({"why": "a credential minted by an identical request in the same second was reported as error %s "
                                          "(distinct credentials must not shadow each other)" % (d and d["error_num"])})
                     break
+            # ... and MANY of them: a long-lived daemon has handed out thousands of salts and IVs; the n-th identical request of
+            # a second must still get a credential of its own (whatever is cached, pooled or recycled inside the PRNG front end)
+            if nthreads == 2:
+                for ciph, nreq in ((4, 1200 if ctx.thorough else 800), (0, 1500 if ctx.thorough else 1100)):
+                    bulk = []
+                    for i in range(nreq):
+                        r, _ = rig.encode(cr.d.sock, uid=11, gid=12, cipher=ciph, data=b"identical request, bulk")
+                        if r is None or r["error_num"] != 0:
+                            break
+                        bulk.append(r["data"])
+                    ctx.count(("same-second-bulk", ciph, len(bulk)))
+                    dist["same-second-bulk"] = dist.get("same-second-bulk", 0) + len(bulk)
+                    seen_at = {}
+                    dup = None
+                    for i, c in enumerate(bulk):
+                        if c in seen_at:
+                            dup = (seen_at[c], i)
+                            break
+                        seen_at[c] = i
+                    if dup:
+                        fails.append({"why": "identical encode requests #%d and #%d of the same second (cipher %d) were given the SAME credential: "
+                                             "the second one's first decode can only be reported as replayed" % (dup[0] + 1, dup[1] + 1, ciph),
+                                      "cred_hex": bulk[dup[0]].hex()})
+                    else:
+                        for i, c in enumerate(bulk):
+                            d, _ = rig.decode(cr.d.sock, c)
+                            if d is None or d["error_num"] != 0:
+                                fails.append({"why": "credential #%d of %d minted by identical requests in the same second: its FIRST decode is answered "
+                                                     "with error %s" % (i + 1, len(bulk), d and d["error_num"]), "cred_hex": c.hex()})
+                                break
             # failed decodes (unauthorized, expired, rewound, corrupted) never consume
             for kind in ("unauthorized", "expired", "rewound", "corrupt"):
                 cr.set_clock(1500000000)
@@ -317,6 +393,8 @@ def live_phase(ctx):
                 if d is None or d["error_num"] != 17:
                     fails.append({"why": "second valid decode was not reported as replayed: %s" % (d and d["error_num"])})
             undelivered_phase(ctx, cr, fails, dist)
+            if nthreads == 1:
+                partial_reply_phase(ctx, cr, fails, dist)
             # the documented exception: transport retries (retry 1..5) of an already-decoded credential
             r, _ = rig.encode(cr.d.sock, uid=11, gid=12, data=b"retry")
             cred = r["data"]
